@@ -30,7 +30,7 @@ def dump_maps(src, folded):
 @fpheap.with_heap_cases(("repr",), 60, 1500)
 class C07(vlib.Check):
     id = "C07"
-    props_modules = ["E3fpVerif.Props.C07", "E3fpVerif.Props.C09Heap"]
+    props_modules = ["E3fpVerif.Props.C07", "E3fpVerif.Props.C07Route", "E3fpVerif.Props.C09Heap"]
     gen_items = ["fprint_fold", "fprinter_consts", "decisions"]
     rule = ("seeded fingerprints of the three kinds (bits over powers of two up to 2^32 and non-powers for the "
             "rejection paths; index sets empty/sparse/low/high/colliding/dense), folded to every admissible and "
